@@ -3,6 +3,7 @@ package gripql
 import (
 	"errors"
 	"fmt"
+	"math"
 
 	//"sort"
 	"strings"
@@ -50,6 +51,31 @@ func (vertex *Vertex) HasProperty(key string) bool {
 	return ok
 }
 
+// validateFinite rejects NaN and the infinities anywhere inside a property value: the stored
+// (JSON) form of element data has no representation for them, they would come back as the
+// strings "NaN" / "Infinity" / "-Infinity"
+func validateFinite(v *structpb.Value) error {
+	switch x := v.GetKind().(type) {
+	case *structpb.Value_NumberValue:
+		if math.IsNaN(x.NumberValue) || math.IsInf(x.NumberValue, 0) {
+			return errors.New("property values must be finite numbers")
+		}
+	case *structpb.Value_ListValue:
+		for _, e := range x.ListValue.GetValues() {
+			if err := validateFinite(e); err != nil {
+				return err
+			}
+		}
+	case *structpb.Value_StructValue:
+		for _, e := range x.StructValue.GetFields() {
+			if err := validateFinite(e); err != nil {
+				return err
+			}
+		}
+	}
+	return nil
+}
+
 // Validate returns an error if the vertex is invalid
 func (vertex *Vertex) Validate() error {
 	if vertex.Gid == "" {
@@ -70,7 +96,7 @@ func (vertex *Vertex) Validate() error {
 			return err
 		}
 	}
-	return nil
+	return validateFinite(structpb.NewStructValue(vertex.Data))
 }
 
 // GetDataMap obtains data attached to vertex in the form of a map
@@ -145,7 +171,7 @@ func (edge *Edge) Validate() error {
 			return err
 		}
 	}
-	return nil
+	return validateFinite(structpb.NewStructValue(edge.Data))
 }
 
 // ValidateGraphName returns an error if the graph name is invalid
